@@ -304,6 +304,24 @@ pub fn run(tier: &str) -> i32 {
             json!({"threshold": theta, "max_blocks": n, "configuration": "syncing disabled, lazy fees, sync gate on, testnet fee table, watchdog canister, burn_cycles, custom blocks source"}),
         );
     }
+    // announced headers pending at the upgrade (they are part of the state the sync gate and
+    // later validations read)
+    {
+        let mut alpha = Alphabet::tree(3, &[1]);
+        alpha.hdr_lens = vec![1, 2];
+        alpha.max_hdr_events = 1;
+        alpha.upgrades = vec![0, 1];
+        alpha.max_upgrades = 1;
+        let mut cfg = WorldCfg::regtest(2);
+        cfg.disable_if_not_synced = true;
+        let m = ChainModel { cfg, alpha, oracle: C09 { continuation: 1 } };
+        let e = explore(&m, &Limits::new(2, if quick { 300 } else { 6000 }));
+        rep.absorb(
+            "TREE+Hdr+Upgrade theta=2 n=3 (announced headers pending at the upgrade, sync gate on)",
+            e,
+            json!({"threshold": 2, "max_blocks": 3, "announced_header_chains": [1, 2], "sync_gate": true}),
+        );
+    }
     // a configuration that differs from the network's defaults in the other direction: an
     // operator's all-zero fee table on mainnet / testnet (zero is a legitimate value and must
     // survive an upgrade like any other)
